@@ -184,6 +184,19 @@ func goEnv() []string {
 
 // runNative runs a batch of vectors in one process (memory-limited) and parses the results.
 func runNative(pkg string, batch []batchItem, tier string, timeoutS int) ([]nativeResult, error) {
+	// Virtual-time harnesses run inside a testing/synctest bubble; pooled timers must not cross
+	// bubbles, so each vector gets its own process.
+	if len(batch) > 1 && strings.HasSuffix(batch[0].Harness, "VT") {
+		var all []nativeResult
+		for _, it := range batch {
+			r, err := runNative(pkg, []batchItem{it}, tier, timeoutS)
+			if err != nil {
+				return nil, err
+			}
+			all = append(all, r...)
+		}
+		return all, nil
+	}
 	bin, err := buildNativeTest(pkg)
 	if err != nil {
 		return nil, err
